@@ -10,9 +10,13 @@ use crate::refmodel::geom::{self, Loc, P};
 use layout21raw::{Path, Point, Polygon, Rect, Shape, ShapeTrait};
 use serde_json::{json, Value};
 
-pub struct C13;
+/// `off`: every shape and every query point is handed to the real code translated by this vector (the exact
+/// oracle works on the untranslated coordinates; containment is translation invariant)
+pub struct C13 {
+    off: P,
+}
 
-fn pt(p: P) -> Point {
+fn pt0(p: P) -> Point {
     Point::new(p.0 as isize, p.1 as isize)
 }
 fn key_poly(kind: &str, poly: &[P], extra: i64, q: P) -> String {
@@ -50,13 +54,16 @@ impl Rng {
 }
 
 impl C13 {
+    fn pt(&self, p: P) -> Point {
+        pt0((p.0 + self.off.0, p.1 + self.off.1))
+    }
     /// one polygon query on the real code, both directly and through the `Shape` enum
     fn query_poly(&self, poly: &[P], q: P, kind: &str, cx: &mut Cx) {
         cx.stats.evaluations += 1;
         let want = geom::locate_winding(q, poly);
         let want_b = want != Loc::Outside;
-        let rp = Polygon { points: poly.iter().map(|p| pt(*p)).collect() };
-        let qq = pt(q);
+        let rp = Polygon { points: poly.iter().map(|p| self.pt(*p)).collect() };
+        let qq = self.pt(q);
         let got = guard(|| {
             let a = rp.contains(&qq);
             let b = Shape::Polygon(rp.clone()).contains(&qq);
@@ -182,8 +189,8 @@ impl C13 {
     fn query_rep(&self, rep: &[P], base: &[P], q: P, cx: &mut Cx) {
         cx.stats.evaluations += 1;
         let want = geom::locate_winding(q, base) != Loc::Outside;
-        let rp = Polygon { points: rep.iter().map(|p| pt(*p)).collect() };
-        let qq = pt(q);
+        let rp = Polygon { points: rep.iter().map(|p| self.pt(*p)).collect() };
+        let qq = self.pt(q);
         match guard(|| rp.contains(&qq)) {
             Err(p) => cx.fail(&key_poly("p", rep, 0, q), "polygon-repeated-vertex-panic", None, || p.short(), || Value::Null),
             Ok(a) => {
@@ -203,8 +210,8 @@ impl C13 {
     fn query_rect(&self, a: P, b: P, q: P, cx: &mut Cx) {
         cx.stats.evaluations += 1;
         let want = geom::in_closed_rect(q, a, b);
-        let r = Rect { p0: pt(a), p1: pt(b) };
-        let qq = pt(q);
+        let r = Rect { p0: self.pt(a), p1: self.pt(b) };
+        let qq = self.pt(q);
         match guard(|| (r.contains(&qq), Shape::Rect(r.clone()).contains(&qq))) {
             Err(p) => cx.fail(&key_poly("r", &[a, b], 0, q), "rect-panic", None, || p.short(), || Value::Null),
             Ok((x, y)) => {
@@ -239,8 +246,8 @@ impl C13 {
                 all_far = false;
             }
         }
-        let p = Path { points: pts.iter().map(|p| pt(*p)).collect(), width: w as usize };
-        let qq = pt(q);
+        let p = Path { points: pts.iter().map(|p| self.pt(*p)).collect(), width: w as usize };
+        let qq = self.pt(q);
         match guard(|| (p.contains(&qq), Shape::Path(p.clone()).contains(&qq))) {
             Err(e) => cx.fail(&key_poly("w", pts, w, q), "path-panic", None, || e.short(), || Value::Null),
             Ok((x, y)) => {
@@ -379,7 +386,7 @@ impl Driver for C13 {
         let (g, l) = tier.pick((4, 5), (5, 5));
         Describe {
             rule: format!(
-                "rectangles: every ordered pair of corner points on a 5x5 grid x every point of the 7x7 grid; polygons: every sequence of 3..={l} distinct vertices on a {g}x{g} grid that is a simple polygon (all orientations, start vertices, collinear vertices){} and each of them again with one consecutive repeated vertex at every position, x every point of the (g+2)^2 grid; Manhattan paths: every sequence of 2..=4 points on a 5x5 grid with axis-parallel non-empty segments, and each of up to 3 points again with one point listed twice in a row at any position (a zero-length segment, which fixes no point to true), x width 0..=4 x every point of the 9x9 grid. A state is one shape (enumeration is duplicate-free by construction); a polygon is non-trivial when some non-boundary grid point has its rightward ray passing through a polygon vertex. Oracle: exact integer geometry (boundary by zero cross product, winding number with half-open rule, cross-checked against an independent crossing-number implementation at start-up).",
+                "[every shape and query point is given to the real code translated by this part's offset: (0,0), (-3,-2) so that coordinates straddle zero, (-1000003,-70001)] rectangles: every ordered pair of corner points on a 5x5 grid x every point of the 7x7 grid; polygons: every sequence of 3..={l} distinct vertices on a {g}x{g} grid that is a simple polygon (all orientations, start vertices, collinear vertices){} and each of them again with one consecutive repeated vertex at every position, x every point of the (g+2)^2 grid; Manhattan paths: every sequence of 2..=4 points on a 5x5 grid with axis-parallel non-empty segments, and each of up to 3 points again with one point listed twice in a row at any position (a zero-length segment, which fixes no point to true), x width 0..=4 x every point of the 9x9 grid. A state is one shape (enumeration is duplicate-free by construction); a polygon is non-trivial when some non-boundary grid point has its rightward ray passing through a polygon vertex. Oracle: exact integer geometry (boundary by zero cross product, winding number with half-open rule, cross-checked against an independent crossing-number implementation at start-up).",
                 if tier.is_thorough() { ", plus every 6-vertex simple polygon on the 5x5 grid" } else { "" }
             ),
             assumptions: vec![
@@ -507,5 +514,9 @@ impl Driver for C13 {
 }
 
 pub fn driver() -> Box<dyn Driver> {
-    Box::new(C13)
+    // the same shapes at the origin (coordinates >= 0), straddling it (mixed signs) and far in the third quadrant
+    Box::new(Multi {
+        id: "C13",
+        parts: vec![("at-origin", Box::new(C13 { off: (0, 0) })), ("straddling-origin", Box::new(C13 { off: (-3, -2) })), ("third-quadrant", Box::new(C13 { off: (-1_000_003, -70_001) }))],
+    })
 }
